@@ -651,6 +651,27 @@ fn check_case(out: &mut Out, c: &Case, st: &mut Stats) {
             agreement(out, c, &fits[0].1, &fits[1].1, "QR vs SVD", cond_aug, &cn, rn, st);
         }
     } else {
+        // an EXACTLY constant column cannot be standardised: with normalize = true the fit must
+        // return Err whatever the constant is (for a non-dyadic value the one-pass deviation is
+        // rounding noise or NaN, and an Ok would carry garbage / NaN coefficients); with
+        // normalize = false the raw system is still positive definite and is judged as usual
+        let const_col = (0..p).find(|&j| (1..n).all(|r| if c.f32m { (c.x[r][j] as f32) == (c.x[0][j] as f32) } else { c.x[r][j] == c.x[0][j] }));
+        if c.normalize {
+            if let Some(j) = const_col {
+                for sol in [Sol::Chol, Sol::SVD] {
+                    match fit_ridge(&c.x, &c.y, c.alpha, true, sol, &c.xnew, c.f32m) {
+                        Ok(None) => {}
+                        Err(msg) => out.fail("constant_column_is_err", &format!("{}: column {} is constant ({:e}) and normalize = true: panic instead of Err: {}", sol.name(), j, c.x[0][j], msg), c.to_json()),
+                        Ok(Some(fit)) => out.fail(
+                            "constant_column_is_err",
+                            &format!("{}: column {} is constant ({:e}) and normalize = true, but fit returned Ok (w[{}] = {:e}, b = {:e})", sol.name(), j, c.x[0][j], j, fit.w.get(j).cloned().unwrap_or(f64::NAN), fit.b),
+                            c.to_json(),
+                        ),
+                    }
+                }
+                return;
+            }
+        }
         let mut fits: Vec<(Sol, FitOut)> = vec![];
         let (mu, sd) = mean_std(&c.x);
         let z = if c.normalize { standardise(&c.x, &mu, &sd) } else { c.x.clone() };
@@ -1183,6 +1204,26 @@ fn main() {
         corr_ols(&mut out, &x, &y, Sol::SVD, false);
         out.count("corr:degenerate-target");
     }
+    // ---- correspondence: exactly constant columns of non-dyadic / dyadic values: normalised fit = Err
+    //      (both solvers), raw fit = the ordinary solution, bit for bit ----
+    for i in 0..(8 * k) {
+        let p = rng.usize_in(1, 4);
+        let n = rng.usize_in(p + 1, 12);
+        let mut x = small_matrix(&mut rng, n, p, i % 4);
+        let j = rng.below(p);
+        let v = *rng.pick(&[0.1, 0.3, 0.7, 1.1, 12.6, 2.0 / 3.0, 1e-3, 123.456, 0.5, 2.0, 96.0, -0.1, -7.3]);
+        for r in x.iter_mut() {
+            r[j] = v;
+        }
+        let y: Vec<f64> = (0..n).map(|_| if i % 2 == 0 { rng.dyadic(16, 2) } else { rng.normal() * 5.0 + 2.0 }).collect();
+        let alpha = if i % 2 == 0 { *rng.pick(&[0.125, 0.5, 1.0, 4.0]) } else { 10f64.powf(rng.uniform(-3.0, 2.0)) };
+        for normalize in [true, false] {
+            corr_ridge(&mut out, &x, &y, alpha, normalize, Sol::Chol, !normalize);
+            corr_ridge(&mut out, &x, &y, alpha, normalize, Sol::SVD, false);
+        }
+        corr_stats(&mut out, &x);
+        out.count("corr:constant-column");
+    }
     // error paths: n <= p, wrong target length, constant column (normalised: Err), alpha = 0 on a
     // rank-deficient design and negative alpha (Cholesky: not positive definite)
     for i in 0..(6 * k) {
@@ -1218,6 +1259,44 @@ fn main() {
         let f32m = i % 4 == 3;
         let (c, _) = gen_case(&mut rng, i % 2 == 0, if a.thorough { 60 } else { 30 }, 8, f32m, &mut out);
         corr_validator(&mut out, &c, &mut rng);
+    }
+
+    // ---- search: ridge on designs with an exactly constant column (non-dyadic and dyadic values) ----
+    let nconst = if a.thorough { 1500 } else { 240 };
+    for i in 0..nconst {
+        let f32m = i % 5 == 4;
+        let (mut c, _) = gen_case(&mut rng, true, 40, 6, f32m, &mut out);
+        c.normalize = i % 2 == 0;
+        let p = c.x[0].len();
+        let cmax = if f32m { 50.0 } else { 1e6 };
+        let mut done = false;
+        for _try in 0..6 {
+            let j = rng.below(p);
+            let v0 = *rng.pick(&[0.1, 0.3, 0.7, 1.1, 12.6, 2.0 / 3.0, 1e-3, 123.456, 0.5, 2.0, 96.0, -0.1, -7.3]);
+            let v = if f32m { r32(v0) } else { v0 };
+            let mut x2 = c.x.clone();
+            for r in x2.iter_mut() {
+                r[j] = v;
+            }
+            // normalize = false is judged by the gradient / agreement oracles: stay inside the
+            // quantifier (the constant column must not make the raw design ill conditioned)
+            if c.normalize || cond_of(&x2) <= cmax {
+                c.x = x2;
+                for r in c.xnew.iter_mut() {
+                    r[j] = v;
+                }
+                c.family = format!("{}+constant-column", c.family);
+                done = true;
+                break;
+            }
+        }
+        if !done {
+            out.count("search:constant-column:skipped(cond out of the quantifier)");
+            continue;
+        }
+        out.eval(c.key(), p >= 2);
+        out.count(&format!("search:constant-column:{}:{}", if c.normalize { "normalized(must be Err)" } else { "raw(must fit)" }, if f32m { "f32" } else { "f64" }));
+        check_case(&mut out, &c, &mut st);
     }
 
     // ---- search ----
